@@ -64,7 +64,9 @@ def run(prop, tier, seed, plan, replay_dir=None, merge=False, full=False):
         nsched = int((150 if tier == "quick" else 1000) * float(os.environ.get("VERIF_SCALE", "1")))
         if merge and not full:
             nsched = nsched // 2
-        passes = [(sd, "lin", "LinTrace", nprog, []) for sd in seeds] + [(sd, "sched", "SchedTrace", nsched, ["-mode", "sched"]) for sd in seeds]
+        passes = ([(sd, "lin", "LinTrace", nprog, []) for sd in seeds]
+                  + [(sd, "sched", "SchedTrace", nsched - nsched // 3, ["-mode", "sched"]) for sd in seeds]
+                  + [(sd, "sched2", "SchedTrace_cap2", nsched // 3, ["-mode", "sched", "-cap", "2"]) for sd in seeds])   # the same with a buffered Watcher
         if replay_dir:
             which = meta.get("pass", "lin")
             passes = [x for x in passes if x[1] == which]
@@ -79,7 +81,7 @@ def run(prop, tier, seed, plan, replay_dir=None, merge=False, full=False):
             outj = os.path.join(d, "out.json")
             e = engines.tlc_env(d)
             e["TRACE"], e["TRACE_OUT"] = hist, outj
-            p = subprocess.run(["timeout", "3000", "tlc", "-workers", "1", "-metadir", os.path.join(d, "meta"), "-config", spec + ".cfg", spec + ".tla"],
+            p = subprocess.run(["timeout", "3000", "tlc", "-workers", "1", "-metadir", os.path.join(d, "meta"), "-config", spec + ".cfg", spec.split("_")[0] + ".tla"],
                                cwd=d, env=e, capture_output=True, text=True)
             if p.returncode != 0 or not os.path.exists(outj):
                 log("MODEL-ERROR: %s did not finish (rc=%d)\n%s" % (spec, p.returncode, (p.stdout + p.stderr)[-2500:]))
@@ -95,7 +97,7 @@ def run(prop, tier, seed, plan, replay_dir=None, merge=False, full=False):
             hung = {h[0]: h[1] for h in res["hung"]}
             crashed = {c[0]: c[1] for c in res["crashed"]}
             total += len(progs)
-            if pname == "sched":
+            if pname.startswith("sched"):
                 sched_total += len(progs)
             for idx in sorted(progs):
                 cause = None
@@ -105,11 +107,11 @@ def run(prop, tier, seed, plan, replay_dir=None, merge=False, full=False):
                     cause = "hang:" + ",".join(sorted(set(hung[idx])))
                 elif idx not in ok:
                     cause = signature(history_of(hist, idx))
-                    if pname == "sched":
+                    if pname.startswith("sched"):
                         cause = cause.replace("not_linearizable", "not_explained_by_scheduling_model")
                 else:
                     explained += 1
-                    if pname == "sched":
+                    if pname.startswith("sched"):
                         sched_ok += 1
                     continue
                 # which properties does it concern?
